@@ -151,6 +151,10 @@ def run_case(case):
             gb.add(var)
             model = gb.build_model()
         if entry == "auto":
+            if "x_transformed" not in model.vars:
+                res.violation("auto-transform-not-applied", "auto_transform=True but the built model has no variable "
+                              f"'x_transformed' (variables: {sorted(model.vars)})", w)
+                return res
             tvar = model.vars["x_transformed"]
         # ---- oracle pieces (independent instances, current parameter values)
 
